@@ -1,0 +1,35 @@
+//go:build verif
+
+package config
+
+import (
+	"sync/atomic"
+	"time"
+)
+
+// Verification hooks (build tag verif): let a test harness set the few
+// configuration values the checks vary, without a config file.
+
+var verifTimeoutNs, verifHeartbeatNs, verifFragment int64
+
+// VerifSet installs a configuration. hlsFragment <= 0 keeps the normal clamp.
+func VerifSet(listen string, auth, cacheGop bool, hlsPath string, hlsFragment int) {
+	c := new(config)
+	c.ListenAddr = listen
+	c.Auth = auth
+	c.CacheGop = cacheGop
+	c.HlsPath = hlsPath
+	c.HlsFragment = hlsFragment
+	globalC = c
+	atomic.StoreInt64(&verifFragment, int64(hlsFragment))
+}
+
+// VerifTimeouts overrides NetTimeout / NetHeartbeatInterval (0 = default).
+func VerifTimeouts(net, heartbeat time.Duration) {
+	atomic.StoreInt64(&verifTimeoutNs, int64(net))
+	atomic.StoreInt64(&verifHeartbeatNs, int64(heartbeat))
+}
+
+func verifNetTimeout() time.Duration { return time.Duration(atomic.LoadInt64(&verifTimeoutNs)) }
+func verifHeartbeat() time.Duration  { return time.Duration(atomic.LoadInt64(&verifHeartbeatNs)) }
+func verifHlsFragment() int          { return int(atomic.LoadInt64(&verifFragment)) }
